@@ -245,6 +245,18 @@ func runRoundTrip(hdr Header, c any, src string) CaseResult {
 	}
 	b1, err := json.Marshal(s)
 	res.Evals = 1
+	if cm["marshal"] == "err" {
+		// an Extra key named like a real keyword, here or below: no document has the value's meaning
+		res.Key = string(mustJSON(cm["s"]))
+		res.Nontrivial = true
+		if err == nil {
+			r := fail("marshal-accepts-keyword-in-extra", "Marshal refuses a Schema value whose Extra has a key named like a keyword", string(b1))
+			r.Failures[len(r.Failures)-1].Concrete = map[string]any{"schema_value": dumpShape(s), "marshaled": json.RawMessage(b1)}
+			return r
+		}
+		res.Sample = map[string]any{"schema_value": dumpShape(s), "expect": "Marshal error", "got": err.Error()}
+		return res
+	}
 	if err != nil {
 		return fail("marshal", "Marshal succeeds", err.Error())
 	}
